@@ -157,7 +157,8 @@ def run(ck):
         risky = [(i, e) for i, e in enumerate(exprs) if has_zero_div_risk(e)]
         names = [("M_%d" % i, e) for i, e in safe]
         hdr, cvals = clang_values(names, tmp, "main")
-        variants = [("default", []), ("fit", ["--fit-macro-constant-types"]), ("signed", ["--default-macro-constant-type", "signed"])]
+        variants = [("default", []), ("fit", ["--fit-macro-constant-types"]), ("signed", ["--default-macro-constant-type", "signed"]),
+                    ("fit+signed", ["--fit-macro-constant-types", "--default-macro-constant-type", "signed"])]
         outs = {}
         for vn, fl in variants:
             rc, consts, err = bindgen_consts(bindgen, hdr, fl)
@@ -179,7 +180,7 @@ Definition es : list expr := [
 Definition enc_c (e : expr) : list Z := match c_eval e with Some (t, v) => [1; (if signed t then 1 else 0); Z.of_N (bits t); v] | None => [0] end.
 Definition enc_rs (e : expr) : list Z := match rs_eval e with RsInt v => [1; v] | RsPanic => [2] | RsReject => [3] end.
 Definition kcode (k : ikind) : Z := match k with I8 => 18 | I16 => 116 | I32 => 132 | I64 => 164 | U8 => 8 | U16 => 16 | U32 => 32 | U64 => 64 end.
-Definition enc_k (e : expr) : list Z := match rs_eval e with RsInt v => [kcode (macro_kind false false v); kcode (macro_kind false true v); kcode (macro_kind true false v)] | _ => [] end.
+Definition enc_k (e : expr) : list Z := match rs_eval e with RsInt v => [kcode (macro_kind false false v); kcode (macro_kind false true v); kcode (macro_kind true false v); kcode (macro_kind true true v)] | _ => [] end.
 Eval vm_compute in map (fun e => [enc_c e; enc_rs e; enc_k e; [if benign e then 1 else 0]]) es.
 """ % terms)
         model = []
@@ -224,13 +225,13 @@ Eval vm_compute in map (fun e => [enc_c e; enc_rs e; enc_k e; [if benign e then 
             if not okr:
                 bad_rs.append({"macro": c_text(e), "bindgen": got, "model": mrs})
             if mrs[0] == 1 and got is not None:
-                ks = [outs[v].get(name, (None,))[0] for v in ("default", "fit", "signed")]
+                ks = [outs[v].get(name, (None,))[0] for v in ("default", "fit", "signed", "fit+signed")]
                 okk = [kcode.get(k) for k in ks] == mk
                 tie_k += okk
                 if not okk:
                     bad_k.append({"macro": c_text(e), "value": mrs[1], "bindgen_types": ks, "model": mk})
             # ---- the property on the implementation
-            for vn in ("default", "fit", "signed"):
+            for vn in ("default", "fit", "signed", "fit+signed"):
                 g = outs[vn].get(name)
                 if g is None or cv is None:
                     continue   # omitted macro, or not a defined C constant: nothing to compare
@@ -247,7 +248,7 @@ Eval vm_compute in map (fun e => [enc_c e; enc_rs e; enc_k e; [if benign e then 
         ck.coverage["traces_validated_against_impl"] = tie_rs
         ck.obligation("correspondence:clang==C05/Model.c_eval", not bad_c, "%d macros, %d mismatches" % (len(names), len(bad_c)))
         ck.obligation("correspondence:bindgen constants==C05/Model.rs_eval", not bad_rs, "%d macros, %d mismatches" % (len(names), len(bad_rs)))
-        ck.obligation("correspondence:bindgen macro types==C05/Model.macro_kind", not bad_k, "%d typed constants x 3 option sets, %d mismatches" % (tie_k + len(bad_k), len(bad_k)))
+        ck.obligation("correspondence:bindgen macro types==C05/Model.macro_kind", not bad_k, "%d typed constants x 4 option sets, %d mismatches" % (tie_k + len(bad_k), len(bad_k)))
         for nm, bad in (("clang vs C05/Model.c_eval", bad_c), ("bindgen vs C05/Model.rs_eval", bad_rs), ("bindgen vs C05/Model.macro_kind", bad_k)):
             if bad:
                 ck.broken("correspondence", nm, json.dumps(bad[:8], indent=1))
